@@ -44,8 +44,27 @@ def replace(text, name, body):
     pat = re.compile(r'(<!-- BEGIN:%s -->).*?(<!-- END:%s -->)' % (name, name), re.S)
     return pat.sub(lambda m: m.group(1) + "\n" + body + "\n" + m.group(2), text)
 
+def summary_counts(t):
+    """harness counts of the summary table and the defect totals, from the evidence files and known_findings.json"""
+    for f in sorted(glob.glob('/verif/evidence/C*.json')):
+        try:
+            e = json.load(open(f))
+            n = len(e['coverage'].get('harnesses', []))
+        except Exception:
+            continue
+        pid = e['property_id']
+        t = re.sub(r'(\| %s \| [^|]*\| )[^|]*(\|)' % pid, lambda m: m.group(1) + str(n) + ' ' + m.group(2), t, count=1)
+    d = json.load(open('/verif/known_findings.json'))
+    nf = sum(1 for f in d['findings'] if f['status'] == 'fixed')
+    no = sum(1 for f in d['findings'] if f['status'] == 'open')
+    t = re.sub(r'Running the checks found [^\n]*\n[^\n]*\n[^\n]*recorded as known findings\.',
+               'Running the checks found **%d genuine defects** of go-diskfs (§8, generated from `known_findings.json`):\n%d were repaired by one small `fix:` commit each (the unedited pinned suite passes with each), %d are\nrecorded as known findings.' % (nf + no, nf, no), t)
+    return t
+
+
 if __name__ == '__main__':
     t = open('/verif/DESIGN.md').read()
+    t = summary_counts(t)
     t = replace(t, 'findings', findings_tables())
     t = replace(t, 'seeded', seeded_table())
     open('/verif/DESIGN.md', 'w').write(t)
